@@ -18,7 +18,7 @@ FUNCTIONS_ENCODED = ['pgpy.constants.SecurityIssues.causes_signature_verify_to_f
                      'pgpy.types.SignatureVerification.good_signatures', 'pgpy.types.SignatureVerification.bad_signatures',
                      'pgpy.types.SignatureVerification.__and__', 'pgpy.types.SignatureVerification.__len__',
                      'pgpy.types.SignatureVerification.add_sigsubj', 'pgpy.pgp.PGPSignature.hashdata']
-STUBS = ['EdDSAPub.verify -> symbolic boolean (signature oracle)',
+STUBS = ['EdDSAPub.verify -> symbolic boolean (signature oracle)', 'O17.4: PGPKey.is_expired / revocation_signatures / self_verified -> symbolic facts; check_management itself is the real code',
          'PGPKey.check_management / check_primitives -> SecurityIssues(<symbolic 11-bit value>) (O17.2)']
 OUTSIDE = ['how check_management / validate_params compute the issue flags from real key parameters (they are stubbed to an arbitrary value)',
            'Revoked is treated as advisory, as the library does today (the property text lists expired, no self-signature, disabled, invalid)']
@@ -109,6 +109,7 @@ def _verify(self, subj, sigbytes, hash_alg):
 
 
 F.EdDSAPub.verify = _verify
+_REAL_CHECK_MANAGEMENT = PGPKey.check_management
 PGPKey.check_management = lambda self, self_verifying=False: Oracle.soundness
 PGPKey.check_primitives = lambda self: Oracle.primitives
 
@@ -152,6 +153,60 @@ def verify_branch(midx: int, pidx: int, ok: bool) -> bool:
     if truth != (len(bad) == 0):
         return False
     if spec_fails(int(m) | int(p)):
+        return not truth
+    return truth == ok
+
+
+class KeyFacts:
+    expired = False
+    revoked = False
+    selfv = SecurityIssues.OK
+    real_mgmt = False
+
+
+def _mgmt(self, self_verifying=False):
+    if KeyFacts.real_mgmt:
+        return _REAL_CHECK_MANAGEMENT(self, self_verifying)
+    return Oracle.soundness
+
+
+PGPKey.check_management = _mgmt
+PGPKey.is_expired = property(lambda self: KeyFacts.expired)
+PGPKey.self_verified = property(lambda self: KeyFacts.selfv)
+PGPKey.expires_at = property(lambda self: T0 if KeyFacts.expired else None)
+_REAL_REVSIGS = PGPKey.revocation_signatures
+PGPKey.revocation_signatures = property(lambda self: iter([object()]) if KeyFacts.revoked else iter([]))
+DSIG = PGPSignature.new(SignatureType.DirectlyOnKey, PubKeyAlgorithm.EdDSA, HashAlgorithm.SHA256, KEY.fingerprint.keyid, created=T0)
+DSIG._signature.signature.from_signer(bytes(range(64)))
+SV = [SecurityIssues.OK, SecurityIssues.Invalid, SecurityIssues.NoSelfSignature, SecurityIssues.Disabled]
+
+
+@ob('O17.4', 'the real issue aggregation (check_management / check_soundness) inside verify: an expired key, or one whose self-verification reports '
+             'invalid / no self-signature / disabled, yields a falsy result whatever else holds - for third-party subjects and for the key verifying '
+             'its own direct-key signature, revoked or not, right or wrong crypto answer',
+    'expired, revoked, crypto answer: symbolic booleans; self-verification result from {OK, Invalid, NoSelfSignature, Disabled}; advisory primitive issue from %d values; '
+    'subject in {document, the key itself (self-verifying path)}' % len(PB), cond_timeout={'q': 240, 't': 600})
+def verify_real_aggregation(expired: bool, revoked: bool, svi: int, pidx: int, selfsubj: bool, ok: bool) -> bool:
+    """
+    pre: 0 <= svi < 4
+    pre: 0 <= pidx < len(PB)
+    post: _
+    """
+    KeyFacts.expired, KeyFacts.revoked, KeyFacts.selfv = expired, revoked, SV[svi]
+    KeyFacts.real_mgmt = True
+    Oracle.primitives = PB[pidx]
+    Oracle.answer = ok
+    try:
+        res = PUB.verify(PUB, DSIG) if selfsubj else PUB.verify(b'doc', SIG)
+    finally:
+        KeyFacts.real_mgmt = False
+        KeyFacts.expired = KeyFacts.revoked = False
+        KeyFacts.selfv = SecurityIssues.OK
+    truth = bool(res)
+    bad = list(res.bad_signatures)
+    if len(res) != 1 or truth != (len(bad) == 0):
+        return False
+    if expired or svi != 0:
         return not truth
     return truth == ok
 
@@ -203,4 +258,5 @@ def verdict_coherence(n: int, i0: int, i1: int, i2: int, split: int) -> bool:
 
 SANITY = ['replay_o17_1(%d, 0x3E8)' % i for i in (0, 1, 2, 2 | 256, 4, 16, 1024, 1024 | 512, 8, 32, 64)] + [
     'verify_branch(0, 0, True)', 'verify_branch(0, 0, False)', 'verify_branch(2, 3, True)', 'verify_branch(2, 4, True)', 'verify_branch(9, 0, True)',
-    'verdict_coherence(3, 0, 1, 4, 1)', 'verdict_coherence(1, 0, 0, 0, 0)', 'verdict_coherence(2, 3, 5, 0, 3)']
+    'verify_real_aggregation(True, False, 0, 0, True, True)', 'verify_real_aggregation(True, True, 0, 2, False, True)', 'verify_real_aggregation(False, True, 0, 0, True, True)',
+    'verify_real_aggregation(False, False, 2, 0, False, True)', 'verify_real_aggregation(False, False, 0, 1, True, False)', 'verdict_coherence(3, 0, 1, 4, 1)', 'verdict_coherence(1, 0, 0, 0, 0)', 'verdict_coherence(2, 3, 5, 0, 3)']
